@@ -136,3 +136,59 @@ func Harness_C14_ToPos() {
 	ndAssert("C14.second_position_is_valid", pos2 > 0)
 	ndAssert("C14.first_position_still_resolves", fset.Position(pos).Line == line)
 }
+
+// Harness_C04_K5 (C04): the order of the diagnostics must not depend on the order in which the
+// driver registered the files in the token.FileSet (go/packages parses files concurrently, so that
+// order changes from run to run). Two engines get the same conflicts - spread over two files, with
+// symbolic offsets - but file sets that registered the files in opposite orders; the sequences of
+// messages must be equal. Kernel: (*Engine).Diagnostics (its sort), NewEngine, the real toPos.
+func Harness_C04_K5() {
+	n := 2 + ndChoice("conflicts", ndParam("N", 3)-1)
+	grouping := ndChoice("grouping", 2) == 1
+	type spec struct {
+		file   int
+		line   int
+		offset int
+		nilID  int
+	}
+	specs := make([]spec, n)
+	for k := range specs {
+		line := 1 + ndChoice("line", 3)
+		specs[k] = spec{file: ndChoice("file", 2), line: line, offset: 10*(line-1) + ndInt("column_offset", 0, 9), nilID: ndChoice("nil_source", 2)}
+	}
+	names := []string{"a.go", "b.go"}
+	run := func(order []int) []string {
+		fset := token.NewFileSet()
+		for _, f := range order {
+			c14File(fset, names[f], 4, false)
+		}
+		w := &c11World{grouping: grouping}
+		NoLintAnalyzer = &analysis.Analyzer{Name: "nilaway_nolint_analyzer"}
+		pass := c14Pass(fset)
+		pass.ResultOf[NoLintAnalyzer] = &analysishelper.Result[[]Range]{}
+		e := NewEngine(pass)
+		for k, s := range specs {
+			c := c11Build(k, c11Conf{file: 0, line: s.line, offset: s.offset, nilID: s.nilID, marker: c11Marker(k, names[s.file])})
+			c.position.Filename = names[s.file]
+			e.conflicts = append(e.conflicts, c)
+		}
+		_ = w
+		var msgs []string
+		for _, d := range e.Diagnostics(grouping) {
+			msgs = append(msgs, d.Message)
+		}
+		return msgs
+	}
+	m1 := run([]int{0, 1})
+	m2 := run([]int{1, 0})
+	ndObserveInt("diagnostics", len(m1))
+	same := len(m1) == len(m2)
+	if same {
+		for i := range m1 {
+			if m1[i] != m2[i] {
+				same = false
+			}
+		}
+	}
+	ndAssert("C04.K5.diagnostic_order_is_independent_of_file_registration_order", same)
+}
